@@ -669,6 +669,11 @@ def enumerated_shapes():
     sh.append(("names-colliding-after-sanitize", [dict(W, name="a b"), dict(W, name="a-b"), dict(W, name="A  B"),
                                                    N("And", 0, 1, 2)], 3))
     sh.append(("stop-on-1", [dict(W), N("StopOn1", 0), L("end"), N("And", 1, 2)], 3))
+    # an unnamed Forward / Located whose content is an unnamed repetition with stop_on, inside a sequence: the link must
+    # carry the name of the diagram that was extracted for the repetition
+    sh.append(("fwd-over-stop-on", [dict(W), N("StopOn0", 0), F(1), L("["), L("]"), N("And", 3, 2, 4)], 5))
+    sh.append(("fwd-over-stop-on-twice", [dict(W), N("StopOn0", 0), F(1), L("["), L("]"), N("And", 3, 2, 4, 2)], 5))
+    sh.append(("located-over-stop-on", [dict(W), N("StopOn1", 0), N("Located", 1), L("end"), N("And", 2, 3)], 4))
     sh.append(("stop-on-0-twice", [dict(W), N("StopOn0", 0), L("x"), N("StopOn1", 2), N("And", 1, 3)], 4))
     return sh
 
